@@ -144,6 +144,7 @@ func travWorker(c *evid.Ctx, prop string) {
 			if out.Stopped {
 				c.Count("lookups that reached Stopped", 1)
 			}
+			c.Count("lookups stopped from inside DoQuery (every query then in flight must be cancelled)", out.StopsFromInside)
 			c.Distinct(gen.Hash64("free", net.Class, net.K, net.Alpha, len(net.Order), out.Queries, out.Stalls))
 			travReport(c, prop, l, out, "free-running")
 		}()
